@@ -200,7 +200,7 @@ fn observe(rec: &mut Rec, g: &Global, tr: &Triple, clients: usize, rng: &mut Cha
 /// enumerated neighbour families around a base triple
 fn neighbours(rng: &mut ChaCha20Rng, idx: u64) -> Vec<Triple> {
   let mut out: Vec<Triple> = Vec::new();
-  match idx % 8 {
+  match idx % 9 {
     0 => {
       // every split point of a fixed concatenation m||e (incl. empty components)
       let cat = rand_bytes_in(rng, 0..13);
@@ -303,6 +303,26 @@ fn neighbours(rng: &mut ChaCha20Rng, idx: u64) -> Vec<Triple> {
       e.extend_from_slice(&digits);
       out.push((m.clone(), e, 0));
     }
+    7 => {
+      // components exchanged through their encodings: (m, LE(a), b) vs (m, LE(b), a),
+      // also big-endian and with the measurement taking part
+      let m = rand_bytes_in(rng, 0..8);
+      let a: u32 = *pick(rng, &[1u32, 2, 3, 7, 50, 255, 256, 1000, 65536]);
+      let b: u32 = loop {
+        let b = *pick(rng, &[1u32, 2, 3, 7, 50, 255, 256, 1000, 65537]);
+        if b != a {
+          break b;
+        }
+      };
+      out.push((m.clone(), a.to_le_bytes().to_vec(), b));
+      out.push((m.clone(), b.to_le_bytes().to_vec(), a));
+      out.push((m.clone(), a.to_be_bytes().to_vec(), b));
+      out.push((m.clone(), b.to_be_bytes().to_vec(), a));
+      out.push((a.to_le_bytes().to_vec(), m.clone(), b));
+      out.push((b.to_le_bytes().to_vec(), m.clone(), a));
+      out.push((a.to_le_bytes().to_vec(), b.to_le_bytes().to_vec(), 1));
+      out.push((b.to_le_bytes().to_vec(), a.to_le_bytes().to_vec(), 1));
+    }
     6 => {
       // long measurements that differ in a single byte, at every position class
       let l = *pick(rng, &[65usize, 100, 128, 129, 200, 300]);
@@ -337,7 +357,7 @@ fn neighbours(rng: &mut ChaCha20Rng, idx: u64) -> Vec<Triple> {
 
 fn family(rec: &mut Rec, _ctx: &Ctx, idx: u64, rng: &mut ChaCha20Rng, g: &Global) {
   let trs = neighbours(rng, idx);
-  rec.case(&("family", idx % 8, trs.len()));
+  rec.case(&("family", idx % 9, trs.len()));
   for tr in &trs {
     // dealing costs O(t): above 1024 only the randomness is observed
     let deal = tr.2 >= 1 && tr.2 <= 1024 && (tr.2 <= 8 || idx % 40 == 2);
@@ -345,8 +365,8 @@ fn family(rec: &mut Rec, _ctx: &Ctx, idx: u64, rng: &mut ChaCha20Rng, g: &Global
     rec.case(&(tr.0.clone(), tr.1.clone(), tr.2));
     observe(rec, g, tr, clients, rng, deal, idx % 5 == 0);
   }
-  if idx < 8 {
-    rec.sample(json!({"family": idx % 8, "triples": trs.iter().take(5).map(tj).collect::<Vec<_>>() }));
+  if idx < 9 {
+    rec.sample(json!({"family": idx % 9, "triples": trs.iter().take(5).map(tj).collect::<Vec<_>>() }));
   }
 }
 
